@@ -332,7 +332,7 @@ def r02_3(ctx, prog, crate):
         ctx.check(ok, "R02.3", ["tally-writer", c.body.path, c.callee.rsplit("::", 1)[-1]],
                   "`%s` is called from `%s`, which is neither an allocator hook nor the overhead measurement"
                   % (c.callee, c.body.path), c.line())
-    ctx.anchor("R02.3", "tally_* call sites", n, 7)
+    ctx.anchor("R02.3", "tally_* call sites", n, 4)
     m = 0
     rec = Recorder(prog, crate)
     sync_paths = set()
